@@ -198,6 +198,9 @@ class kLeastAbsErrors(pathmodel.AbstractPathModelDAG):
         self.weight_type = weight_type
 
 
+        if not isinstance(k, int) or isinstance(k, bool) or k <= 0:
+            utils.logger.error(f"{__name__}: k must be a positive integer, not {k}")
+            raise ValueError(f"k must be a positive integer, not {k}")
         self.k = k
         self.original_k = k
         self.solution_weights_superset = solution_weights_superset
